@@ -362,6 +362,16 @@ def run(ctx):
             else:
                 ok = False
             nodrop = not [i for i in range(f.body.n) if f.body.term(i)["k"] == "drop" and not f.body.blocks[i].get("cleanup") and "ManuallyDrop" not in f.body.term(i)["pty"] and ("Vec" in f.body.term(i)["pty"] or "String" in f.body.term(i)["pty"])]
+            # the recorded pointer stays the allocation's address: once it is taken, the owner is only measured (len, capacity),
+            # never handed to something that may reallocate it
+            caps = [c for c in f.body.calls() if strip_generics(c.resolved or c.callee or "").split("::")[-1] in ("as_mut_ptr", "as_ptr", "as_non_null")]
+            if ok and len(caps) == 1:
+                later = f.body.reachable_after(caps[0].bb)
+                READS = ("len", "capacity", "as_ptr", "as_mut_ptr", "is_empty", "as_slice", "as_str", "as_bytes")
+                movers = [c for c in f.body.calls() if c.bb in later and ("alloc::vec::Vec" in (c.resolved or "") or "alloc::string::String" in (c.resolved or "")) and strip_generics(c.resolved).split("::")[-1] not in READS]
+                if movers:
+                    ok = False
+                    chk.ob("C14.b", f"{f.path} [pointer taken last]", False, f"{strip_generics(movers[0].resolved).split('::')[-1]}() runs on the owner after its data pointer was recorded: the allocation may move, and the Cow then reads, and later frees, the old block", movers[0].loc())
             chk.ob("C14.b", f.path, ok and nodrop, "wraps the owner in ManuallyDrop and records (ptr, len(), capacity()) in that order" if ok and nodrop else f"owned_into_parts builds {sym_str(r)} (effects {names}, owner dropped={not nodrop})", f.loc())
         f = fns.get("shared_into_parts")
         if f:
